@@ -133,6 +133,24 @@ Theorem speed_change_when_due :
          cspeed_interpolate (p_raw (c_speed c)) tg (ease powf (tw_easing tw) (ndiv (elapsed (tw_start tw) 0 l) D)).
 Proof. exact speed_change_when_due_lemma. Qed.
 
+(** A speed tween measured in audio time keeps running while the clock itself is frozen: given to a
+    clock that is not ticking (paused or not yet started), for every list of updates the clock's time
+    stays where it was and the speed follows the same law as on a running clock — so a clock started
+    after the tween's end runs at the target speed from its first update. *)
+Theorem speed_tween_runs_while_paused :
+  forall (powf : Q -> Q -> Q) (c c' : clock Q) (tg : cspeed Q) (tw : tween Q) (l : list (Q * info Q)),
+    c_ticking c = false ->
+    not_delayed (tw_start tw) -> (tw_dur tw <> 0)%Z -> l <> [] ->
+    let c0 := clock_on_start c {| k_speed := Some (Fixed tg, tw); k_ticking := None; k_reset := false |} in
+    clock_run powf c0 l = Ok c' ->
+    let D := ns_to_secs_Q (tw_dur tw) in
+    c_state c' = c_state c /\ c_ticking c' = false /\
+    if completes (tw_start tw) D 0 l
+    then p_state (c_speed c') = Idle (Fixed tg) /\ p_raw (c_speed c') = tg
+    else p_raw (c_speed c') =
+         cspeed_interpolate (p_raw (c_speed c)) tg (ease powf (tw_easing tw) (ndiv (elapsed (tw_start tw) 0 l) D)).
+Proof. exact speed_tween_runs_while_paused_lemma. Qed.
+
 (** an immediate change of zero duration is in force at the very next update *)
 Theorem speed_change_immediate :
   forall (powf : Q -> Q -> Q) (p : param Q (cspeed Q)) (tg : cspeed Q) (tw : tween Q) (dt : Q) (i : info Q),
